@@ -9,6 +9,7 @@ import (
 	"net"
 	"os"
 	"os/signal"
+	"strings"
 	"sync"
 	"syscall"
 	"time"
@@ -293,23 +294,43 @@ func (m *execInitMsg) ToBytes() []byte {
 
 // GetCmd reads execInitMsg from an EXEC_CHANNEL and returns the cmd to run
 func GetCmd(c net.Conn) (string, string, bool, *pty.Winsize, error) {
-	//TODO (drebelsky): consider handling io errors
 	t := make([]byte, 1)
-	io.ReadFull(c, t)
+	if _, err := io.ReadFull(c, t); err != nil {
+		return "", "", false, nil, err
+	}
 	usePty := (t[0] & usePtyFlag) != 0
 	hasSize := (t[0] & hasSizeFlag) != 0
-	l := make([]byte, 4)
-	io.ReadFull(c, l)
-	buf := make([]byte, binary.BigEndian.Uint32(l))
-	io.ReadFull(c, buf)
-	io.ReadFull(c, l)
-	term := make([]byte, binary.BigEndian.Uint32(l))
-	io.ReadFull(c, term)
+	cmd, err := readLenPrefixed(c)
+	if err != nil {
+		return "", "", false, nil, err
+	}
+	term, err := readLenPrefixed(c)
+	if err != nil {
+		return "", "", false, nil, err
+	}
 	var size *pty.Winsize
 	if hasSize {
-		size, _ = readSize(c)
+		size, err = readSize(c)
+		if err != nil {
+			return "", "", false, nil, err
+		}
 	}
-	return string(buf), string(term), usePty, size, nil
+	return cmd, term, usePty, size, nil
+}
+
+// readLenPrefixed reads a 32-bit big-endian length followed by that many bytes.
+// The bytes are accumulated as they arrive, so the memory used follows what the
+// peer actually sent, not the length it announced.
+func readLenPrefixed(r io.Reader) (string, error) {
+	l := make([]byte, 4)
+	if _, err := io.ReadFull(r, l); err != nil {
+		return "", err
+	}
+	var sb strings.Builder
+	if _, err := io.CopyN(&sb, r, int64(binary.BigEndian.Uint32(l))); err != nil {
+		return "", err
+	}
+	return sb.String(), nil
 }
 
 func readSize(r io.Reader) (*pty.Winsize, error) {
